@@ -582,6 +582,23 @@ func c03GenToken(r *verifh.Rng) verifh.Section {
 		case x < 95:
 			switch state {
 			case 0:
+				if r.Chance(1, 4) {
+					// a FLAPPING store: k outages in a row, the store reachable in between only long enough for the monitor
+					// to bring the instance back (no request is served by it); the caller's clock barely moves, so the local
+					// bucket of the instance has `burst` tokens for ALL the outages together
+					k := r.Range(2, 4)
+					for q := 0; q < k; q++ {
+						ops = append(ops, r.PickS("down", "down", "link shadown"))
+						for z := 0; z < burst+1 && z < 8; z++ {
+							ops = append(ops, fmt.Sprintf("allow %d %d %d", i, now(), r.Pick(1, 1, 1, burst)))
+						}
+						if r.Chance(1, 3) {
+							skewNs += int64(ival) / 2
+						}
+						ops = append(ops, "up")
+					}
+					continue
+				}
 				ops = append(ops, r.PickS("down", "down", "link noscriptdown", "link shadown"))
 				state = 1
 				if r.Bool() {
@@ -1256,6 +1273,12 @@ func c03Token(mr *miniredis.Miniredis, store *redis.Redis, cfg verifh.Cfg) (func
 	}()
 	if newPanic != "" {
 		return func(op []string) string { return "newpanic " + newPanic }, nil
+	}
+	if rate == 0 {
+		// on the tree as it is NewTokenLimiter(0, …) panics (time.Second/time.Duration(0)) and no limiter exists; a
+		// constructor that returns one must not be driven further: the division would happen later, possibly in a
+		// goroutine nobody can recover from — reported as a broken correspondence, never as a crash of the run
+		return func(op []string) string { return "no-newpanic limiter-built-with-rate-0" }, nil
 	}
 	dump := func() string {
 		return c03Dump(mr, "tok", "{k}.tokens") + " " + c03Dump(mr, "ts", "{k}.ts")
